@@ -4,6 +4,7 @@ open Big_int_Z
 let curve_of v = match as_atom v with
   | "secp256k1" -> Model.secp256k1
   | "ed25519" -> Model.ed25519
+  | "p256" -> Model.p256
   | s -> raise (Bad ("curve " ^ s))
 let as_pt v : Model.pt = match as_list v with
   | [x; y] -> Some (as_int x, as_int y)
